@@ -123,6 +123,153 @@ def bisection_rules(ctx, rid="R3"):
             ctx.undecided(o2, "paths not decided")
 
 
+def path_new_checks_every_hop(ctx, rid="R1"):
+    """Path::new is the validating constructor the modification API trusts: every consecutive pair of the node sequence is
+    handed to can_reach (a sliding window of two over the WHOLE sequence)"""
+    key = "solution::path::Path::new"
+    o, fd = ctx.require_fn("%s.path-new-validates-every-hop" % rid, "T12", key,
+                           "Path::new asks can_reach for every pair of consecutive nodes (sliding window over the whole sequence)")
+    if fd is None:
+        return
+    NEXT = "core::iter::traits::iterator::Iterator::next"
+    cr = [c for f in hosts(ctx, key, 1) for c in f.body.calls() if c.callee == N("can_reach")]
+    if not cr:
+        ctx.bad(o, "Path::new does not call Network::can_reach")
+        return
+    names = []
+    for f in hosts(ctx, key, 1):
+        for c in f.body.calls():
+            if c.callee != N("can_reach"):
+                continue
+            for sw, cal, d in controlling_sources(f, c):
+                if d is None or d.kind != "call" or not (d.decl == NEXT or (d.callee or "").endswith("::next")):
+                    continue
+                a = d.args[0]
+                if a.place is None:
+                    continue
+                for base in (f.bases(a.place.local) or {a.place.local}):
+                    for df in f.defs.get(base, ()):
+                        i2 = df.instr
+                        if df.kind == "assign" and i2 is not None and i2.rv_kind() == "use" and i2.ops:
+                            i2 = direct_def_instr(f, i2.ops[0])
+                        if i2 is not None and i2.kind == "call":
+                            names.append((i2.callee or i2.decl or "").split("::")[-1])
+                            names += [x.split("::")[-1] for x in direct_chain(f, i2.args[0])] if i2.args else []
+    names = [n for n in names if n]
+    sliding = {"tuple_windows", "windows", "array_windows"} & set(names)
+    jumping = {"tuples", "chunks", "chunks_exact", "step_by", "array_chunks"} & set(names)
+    dropping = {n for n in names if ("::" + n) in NARROWING}
+    if jumping:
+        ctx.bad(o, "the pairs are taken with %s(): the sequence is cut into disjoint pairs, so every second hop is never checked and an "
+                "unconnectable path is accepted as valid" % sorted(jumping)[0], loc=cr[0].line())
+    elif dropping:
+        ctx.bad(o, "the node sequence goes through %s() before the pairs are formed: hops among the dropped nodes are never checked"
+                % sorted(dropping)[0], loc=cr[0].line())
+    elif sliding:
+        ctx.ok(o, "can_reach inside a loop over %s()" % sorted(sliding)[0])
+    else:
+        ctx.undecided(o, "the iteration feeding can_reach is not a recognised sliding window (%s)" % ", ".join(names[:6]))
+
+
+def node_orders(ctx, rid="R3"):
+    """the two node orders the position searches rely on: by start time, ties by end time, then by index (and the mirror image);
+    without the middle key a zero-length activity and its neighbour swap places and the binary searches miss nodes of the tour"""
+    for fn, first, second in (("cmp_start_time", "start_time", "end_time"), ("cmp_end_time", "end_time", "start_time")):
+        key = ND(fn)
+        o, fd = ctx.require_fn("%s.%s.keys" % (rid, fn), "T1", key,
+                               "%s orders by %s, then %s, then index" % (fn, first, second))
+        if fd is None:
+            continue
+        thens = [c for c in fd.body.calls() if (c.callee or "").endswith("Ordering::then") or (c.callee or "").endswith("Ordering::then_with")]
+        at = fd.ret_slice()["atoms"]
+        miss = [x for x in (call(ND(first)), call(ND(second)), (call(ND("idx")), call("model::base_types::NodeIdx::idx"))) if missing_atoms(at, [x])]
+        if miss:
+            ctx.bad(o, "%s does not compare %s: nodes that tie on the remaining keys are ordered differently from the order the tours are "
+                    "searched with" % (fn, fmt_missing(miss)), loc=(thens[0].line() if thens else None))
+            continue
+        # the primary key is the receiver of the outermost chain: a.cmp(b).then(..).then(..)
+        prim = None
+        if thens:
+            inner = thens[0]
+            for t in thens:
+                if not any(d.instr is t2 for t2 in thens if t2 is not t for d in fd.slice_operand_pure(t, t.args[0])["defs"]):
+                    inner = t
+            a0 = fd.slice_operand_pure(inner, inner.args[0])["atoms"]
+            prim = first if call(ND(first)) in a0 and call(ND(second)) not in a0 else (second if call(ND(second)) in a0 and call(ND(first)) not in a0 else None)
+        if prim == second:
+            ctx.bad(o, "%s compares %s first" % (fn, second), loc=thens[0].line())
+        elif prim == first:
+            ctx.ok(o, "%s, then %s, then index" % (first, second))
+        else:
+            ctx.undecided(o, "key order not recognised")
+
+
+def distance_sub_keeps_infinity(ctx, rid="R3"):
+    """Infinity - x = Infinity for every x (also x = Infinity): the cached dead-head distance of a tour that uses the overflow depot is
+    updated with `self.dead_head_distance - removed + added`, all three possibly infinite"""
+    key = "<model::base_types::distance::Distance as core::ops::arith::Sub>::sub"
+    o, fd = ctx.require_fn("%s.distance-sub.infinity-minus-anything" % rid, "T12", key,
+                           "Distance::sub panics only when a finite distance has Infinity (or more than itself) taken away: Infinity - x is Infinity")
+    if fd is None:
+        return
+    DIST = "model::base_types::distance::Distance"
+    panics = [c for c in fd.body.instrs() if c.kind == "call" and ("panic" in (c.callee or "") or "assert_failed" in (c.callee or ""))]
+    if not panics:
+        ctx.undecided(o, "no panic site found")
+        return
+    bad = []
+    for pc in panics:
+        on_self = False
+        for sw, cal, d in controlling_sources(fd, pc):
+            # the switch reads the discriminant of the minuend (parameter 1), possibly as the first component of a matched tuple
+            for x in fd.slice(seed_locals=fd.operand_uses(sw.ops[0]), control=False)["defs"]:
+                i2 = x.instr
+                if i2 is not None and i2.kind == "assign" and i2.rv_kind() == "discr":
+                    pl = i2.discr_place()
+                    root = pl.local
+                    if root == 1:
+                        on_self = True
+                    else:
+                        # a tuple (self, other) built first: field 0 is self
+                        ds = [y for y in fd.defs.get(root, ()) if y.instr is not None and y.instr.kind == "assign" and y.instr.rv_kind() == "agg"]
+                        if ds and pl.proj and pl.proj[0].get("k") == "field":
+                            fi = pl.proj[0].get("i")
+                            op = ds[0].instr.ops[fi] if fi is not None and fi < len(ds[0].instr.ops) else None
+                            if op is not None and op.place is not None and op.place.local == 1:
+                                on_self = True
+        if not on_self:
+            bad.append(pc)
+    if bad:
+        ctx.bad(o, "a panic of Distance::sub is reached without looking at the minuend: Infinity - Infinity panics, so removing the activity "
+                "next to the overflow depot from a tour aborts the solver", loc=str(getattr(fd.body, "span", "") or "").split(":")[0] or None)
+    else:
+        ctx.ok(o, "%d panic site(s), each behind a test of the minuend" % len(panics))
+
+
+def trusted_path_keeps_maintenance(ctx, rid="R1"):
+    """Path::new_trusted answers None only for depot-only sequences: a maintenance-only block (what remove / sub_path / conflict hand
+    back when a slot is taken out) is a path"""
+    key = "solution::path::Path::new_trusted"
+    o, fd = ctx.require_fn("%s.new_trusted.none-only-for-depots" % rid, "T12", key,
+                           "Path::new_trusted returns None iff every node of the sequence is a depot")
+    if fd is None:
+        return
+    tests = set()
+    for k in ctx.prog.family(key):
+        for c in ctx.prog.bodies[k].calls():
+            nm = (c.callee or "")
+            if nm.startswith(ND("")) and nm.split("::")[-1].startswith("is_"):
+                tests.add(nm.split("::")[-1])
+    if tests and tests <= {"is_depot", "is_start_depot", "is_end_depot"}:
+        ctx.ok(o, "decided by %s" % sorted(tests))
+    elif tests and not (tests & {"is_depot", "is_start_depot", "is_end_depot"}) and len(tests & {"is_service", "is_maintenance"}) == 1:
+        t = (tests & {"is_service", "is_maintenance"}).pop()
+        ctx.bad(o, "whether a node sequence is a path is decided by %s() alone: a block of %s only is treated like 'nothing', so the nodes "
+                "cut out of a tour are not handed back (or the caller's unwrap panics)" % (t, "maintenance slots" if t == "is_service" else "service trips"))
+    else:
+        ctx.undecided(o, "kind tests %s" % sorted(tests))
+
+
 def depot_stripping(ctx, rid="R1"):
     """insert_path into a dummy tour strips a leading and a trailing depot of the path independently of each other"""
     key = T("insert_path")
@@ -327,6 +474,12 @@ def rules(ctx):
     none_means_all_reachable(ctx)
     hand_back(ctx)
     depot_stripping(ctx)
+    from .C17 import loader_subset as _ls
+    _ls(ctx, ["Config-new-positional"])       # can_reach, which every position search asks, uses the instance's own shunting times
+    path_new_checks_every_hop(ctx)
+    node_orders(ctx)
+    distance_sub_keeps_infinity(ctx)
+    trusted_path_keeps_maintenance(ctx)
     refusals(ctx)
     tie_prefilter(ctx)
     bisection_rules(ctx)
